@@ -5,8 +5,11 @@ cd /repo || exit 2
 git diff --quiet || { echo "repo dirty"; exit 2; }
 git apply --3way "$S/patch.diff" 2>/tmp/apply.err || git apply "$S/patch.diff" || { echo "PATCH DOES NOT APPLY"; cat /tmp/apply.err; git checkout -- .; exit 3; }
 cd /verif
+# evidence written while a seed is applied must never be committed: keep the clean-tree files aside
+EV=$(mktemp -d /tmp/ev_keep.XXXX); cp -a /verif/evidence/. $EV/
 for p in "$@"; do
   ./check $p > /tmp/try_$p.log 2>&1; rc=$?
   echo "== $p exit=$rc"; grep -E '^(VIOLATION|FAILED OBLIGATION|UNDECIDED|KNOWN)' /tmp/try_$p.log | cut -c1-300 | head -8
 done
+cp -a $EV/. /verif/evidence/; rm -rf $EV
 git -C /repo reset -q --hard HEAD; git -C /repo status --short | head -3
